@@ -449,9 +449,42 @@ def check_pack_and_ctor(ctx):
             ctx.violation('C06-ctor-flags', init, 'self.%s' % attr, 'the declared %s is not stored unchanged' % param, init.node.lineno, clause='e')
 
 
+def check_eos_constant(ctx):
+    """(d') the exported end-of-string marker takes the read-to-end path: that path is keyed on the
+    pattern text, so the pattern of the EOS constant must be that text.  Otherwise EOS is searched
+    by the regex engine inside the search window and the field ends where the window ends"""
+    repo = ctx.repo
+    rule = 'C06-delimited-read'
+    ci = repo.cls('Data')
+    eos = None
+    for st in repo.modules[ci.module]['tree'].body:
+        if isinstance(st, ast.Assign) and len(st.targets) == 1 and isinstance(st.targets[0], ast.Name) and st.targets[0].id == 'EOS':
+            eos = st
+    if eos is None:
+        return
+    v = eos.value
+    pat = v.args[0] if isinstance(v, ast.Call) and (call_name(v) or '').split('.')[-1] == 'compile' and v.args else None
+    keys = set()
+    for fi in ci.methods.values():
+        for n in ast.walk(fi.node):
+            if isinstance(n, ast.Compare) and len(n.ops) == 1 and isinstance(n.ops[0], (ast.Eq, ast.NotEq)):
+                for a, b in ((n.left, n.comparators[0]), (n.comparators[0], n.left)):
+                    if isinstance(a, ast.Attribute) and a.attr == 'pattern' and isinstance(b, ast.Constant) and isinstance(b.value, bytes):
+                        keys.add(b.value)
+    where = (ci.file, '<module>')
+    stt = 'EOS = %s; read-to-end path keyed on pattern %s' % (canon(v), sorted(keys))
+    if not isinstance(pat, ast.Constant) or not keys:
+        ctx.undecided(rule, where, stt, 'cannot relate the EOS constant to the read-to-end path', eos.lineno, clause='d')
+    elif pat.value in keys:
+        ctx.holds(rule, where, stt, 'the exported marker takes the read-to-end path (no search, no window)', eos.lineno, clause='d')
+    else:
+        ctx.violation(rule, where, stt, 'the EOS marker no longer takes the read-to-end path: it is searched inside the search window, so with a search_buffer_length the field silently ends where the window ends', eos.lineno, clause='d', witness=True)
+
+
 def check(ctx):
     repo = ctx.repo
     ci = repo.cls('Data')
+    check_eos_constant(ctx)
     sel = check_selection(ctx)
     done = set()
     nflag = 0
